@@ -381,7 +381,7 @@ def rule_build_strict(col, facts):
             for p in f.pred()[i] + [i]:
                 conds = path_conditions(f, p)
                 for _d, e, pol in conds:
-                    if e[0] == "discr" and any(c[1].endswith("::format_error_impl") for c in expr_calls(e)) and pol == ("eq", variants.index("Success")):
+                    if e[0] == "discr" and any(c[1].endswith("::format_error_impl") for c in expr_calls(e)) and pol == ("eq", variants.index("Success")):  # noqa
                         ok = True
                 detail = str([(show(e), p2) for _d, e, p2 in conds])
     col.check(R, "build_strict", ok, "build_strict can return without format_error_impl(..) == Success: %s" % detail, f.loc())
